@@ -162,3 +162,31 @@ fn k_c01_avx2_score_f32_gather_protein_m1() {
     let expect = 0.0f32 + pm[0][seq.matrix()[R - 1][c].as_index()];
     assert!(scores.matrix()[0][c].to_bits() == expect.to_bits());
 }
+
+/// C06: a row range that reaches into the look-ahead rows (e.g. `0..seq.matrix().rows()`, a plausible slip for "all rows") must be
+/// REFUSED by the safe wrapper (panic), not handed to the kernel, which would walk M-1 rows past the end of the matrix
+/// (defect D16). The matrix allocation is exact (4 rows), so a stray row read leaves the allocation.
+#[kani::proof]
+#[kani::should_panic]
+#[kani::unwind(34)]
+#[kani::stub(std::arch::x86_64::_mm256_shuffle_epi8, m256_shuffle_epi8)]
+#[kani::stub(std::arch::x86_64::_mm256_adds_epu8, m256_adds_epu8)]
+#[kani::stub(std::arch::x86_64::_mm256_broadcastsi128_si256, m256_broadcastsi128_si256)]
+#[kani::stub(std::arch::x86_64::_mm256_stream_si256, m256_stream_si256)]
+#[kani::stub(std::arch::x86_64::_mm256_load_si256, m256_load_si256)]
+#[kani::stub(std::arch::x86_64::_mm_sfence, m_sfence)]
+fn k_c06_avx2_score_u8_rows_into_wrap_refused() {
+    const R: usize = 3; const M: usize = 2;
+    let mut sm = unsafe { DenseMatrix::<Nucleotide, U32>::uninitialized(R + M - 1) };
+    let mut r = 0;
+    while r < R + M - 1 { let mut c = 0; while c < 32 { sm[r][c] = Nucleotide::A; c += 1; } r += 1; }
+    let seq = StripedSequence::<Dna, U32>::with_wrap_unchecked(sm, 32 * R, M - 1);
+    let mut pm = unsafe { DenseMatrix::<u8, U5>::uninitialized(4) };
+    let mut r = 0;
+    while r < 4 { let mut c = 0; while c < 5 { pm[r][c] = 1; c += 1; } r += 1; }
+    pm.resize(M);
+    let mut scores = StripedScores::<u8, U32>::empty();
+    *scores.matrix_mut() = unsafe { DenseMatrix::<u8, U32>::uninitialized(R + M - 1) };
+    // every row of the matrix, look-ahead row included: the last scored row would need a row that does not exist
+    Avx2::score_u8_rows_into_shuffle::<Dna, _, _>(&pm, &seq, 0..R + M - 1, &mut scores);
+}
